@@ -119,24 +119,90 @@ def r3_polarity(ctx):
     rd = ctx.rd(f)
     dom = ctx.dom(g, g.entry)
     defs = rd.defs_of('positive')
-    rep.floor('C20.R3', 'definitions of the polarity', len(defs), 2)
-    for d in defs:
-        facts = graph.guard_facts(dom, d.node)
-        signed = [fa.polarity for fa in facts if isinstance(fa.expr, ast.Call) and isinstance(fa.expr.func, ast.Attribute) and fa.expr.func.attr == 'startswith']
-        v = d.value
-        if signed and signed[0] is True:
-            # positive = not optpart.startswith('-')
-            ok = isinstance(v, ast.UnaryOp) and isinstance(v.op, ast.Not) and isinstance(v.operand, ast.Call) and isinstance(v.operand.func, ast.Attribute) and v.operand.func.attr == 'startswith' and \
-                v.operand.args and const_str(v.operand.args[0]) == '-'
-            ok = ok or (isinstance(v, ast.Call) and isinstance(v.func, ast.Attribute) and v.func.attr == 'startswith' and v.args and const_str(v.args[0]) == '+')
-            ok = ok or (isinstance(v, ast.Compare) and len(v.ops) == 1 and const_str(v.comparators[0]) in ('+', '-') and
-                        (isinstance(v.ops[0], ast.Eq) if const_str(v.comparators[0]) == '+' else isinstance(v.ops[0], ast.NotEq)))
-            what = 'signed option'
-        else:
-            ok = isinstance(v, ast.Constant) and v.value is True
-            what = 'bare option'
-        rep.ob('C20.R3', ctx.loc(f, d.node.ast), '%s: %s' % (what, ctx.src(d.node.ast)), ok,
-               "'+' (or no sign) switches the option on, '-' off" if ok else 'the polarity of a %s is not derived from its sign' % what, anchor=PDO)
+    rep.floor('C20.R3', 'definitions of the polarity', len(defs), 1)
+    optvar = f.node.args.args[0].arg
+
+    class _Unknown(Exception):
+        pass
+
+    def cev(e, text):
+        """concrete value of an expression over the option text"""
+        if isinstance(e, ast.Constant):
+            return e.value
+        if is_name(e, optvar):
+            return text
+        if isinstance(e, (ast.Tuple, ast.List)):
+            return tuple(cev(x, text) for x in e.elts)
+        if isinstance(e, ast.UnaryOp) and isinstance(e.op, ast.Not):
+            return not cev(e.operand, text)
+        if isinstance(e, ast.BoolOp):
+            vs = [cev(v, text) for v in e.values]
+            return all(vs) if isinstance(e.op, ast.And) else any(vs)
+        if isinstance(e, ast.IfExp):
+            return cev(e.body, text) if cev(e.test, text) else cev(e.orelse, text)
+        if isinstance(e, ast.Call) and isinstance(e.func, ast.Attribute) and e.func.attr in ('startswith', 'endswith') and len(e.args) == 1:
+            return getattr(cev(e.func.value, text), e.func.attr)(cev(e.args[0], text))
+        if isinstance(e, ast.Call) and isinstance(e.func, ast.Attribute) and e.func.attr in ('strip', 'lstrip') and not e.args:
+            return getattr(cev(e.func.value, text), e.func.attr)()
+        if isinstance(e, ast.Subscript):
+            base = cev(e.value, text)
+            if isinstance(e.slice, ast.Slice):
+                lo = cev(e.slice.lower, text) if e.slice.lower is not None else None
+                hi = cev(e.slice.upper, text) if e.slice.upper is not None else None
+                if e.slice.step is None:
+                    return base[lo:hi]
+            else:
+                return base[cev(e.slice, text)]
+        if isinstance(e, ast.Compare) and len(e.ops) == 1:
+            l, r = cev(e.left, text), cev(e.comparators[0], text)
+            op = e.ops[0]
+            if isinstance(op, ast.Eq):
+                return l == r
+            if isinstance(op, ast.NotEq):
+                return l != r
+            if isinstance(op, ast.In):
+                return l in r
+            if isinstance(op, ast.NotIn):
+                return l not in r
+        raise _Unknown(ast.unparse(e))
+    cons_nodes = [n for n in g.nodes if not n.dup and n.kind == 'stmt' and any(is_name(c.func, 'Directive') for c in node_calls(n))]
+    need(cons_nodes, 'C20.R3: no Directive construction in parse_directive_optstr')
+    from collections import deque
+    for text, spec, what in (('+SKIP', True, "'+' option"), ('-SKIP', False, "'-' option"), ('SKIP', True, 'bare option')):
+        seen = set()
+        got = {}
+        work = deque([(g.entry, 'unset')])
+        while work:
+            n, pv = work.popleft()
+            if (id(n), pv) in seen:
+                continue
+            seen.add((id(n), pv))
+            if n.kind == 'stmt' and isinstance(n.ast, ast.Assign) and len(n.ast.targets) == 1 and is_name(n.ast.targets[0], 'positive'):
+                try:
+                    pv = bool(cev(n.ast.value, text))
+                except _Unknown as ex:
+                    raise AnalysisError('C20.R3: the polarity is computed by an expression this rule cannot evaluate: %s' % ex)
+                except Exception:
+                    pv = 'error'
+            if any(n is c for c in cons_nodes):
+                got.setdefault(pv, n)
+            for (t, kind, tok) in n.succ:
+                if kind != 'n':
+                    continue
+                if t.kind == 'branch' and t.attrs['test'].kind == 'test' and t.attrs['polarity'] in (True, False):
+                    try:
+                        tr = bool(cev(t.attrs['test'].ast, text))
+                    except _Unknown:
+                        tr = None
+                    except Exception:
+                        tr = None
+                    if tr is not None and tr != t.attrs['polarity']:
+                        continue
+                work.append((t, pv))
+        need(got, 'C20.R3: no Directive construction is reachable for a %s' % what)
+        ok = set(got) == {spec}
+        rep.ob('C20.R3', ctx.loc(f, next(iter(got.values())).ast), '%s: polarity %s' % (what, sorted(map(str, got))), ok,
+               "'+' (or no sign) switches the option on, '-' off" if ok else 'a %s is parsed with polarity %s (must be %s)' % (what, sorted(map(str, got)), spec), anchor=PDO)
     # the Directive is built from (name, positive, ...)
     cons = [c for c in ast.walk(f.node) if isinstance(c, ast.Call) and is_name(c.func, 'Directive')]
     ok = bool(cons) and all(len(c.args) >= 2 and is_name(c.args[0], 'name') and is_name(c.args[1], 'positive') for c in cons)
